@@ -424,6 +424,9 @@ func genTrees(c *genCtx) error {
 		for _, d := range treeShapes(c) {
 			emit(d)
 		}
+		for _, d := range lenientDocs() {
+			emit(d)
+		}
 	}
 	// number leaves: one literal per abstract class of the scanner model (every conversion path and boundary
 	// of internal/fp), as an array element and as object members
